@@ -249,6 +249,18 @@ func (g *typeGen) structType(t *rapid.T, depth int) TypeDesc {
 		if g.cfg.Tags {
 			f.Tag = g.tag(t, &f.Type)
 		}
+		if g.cfg.Pool && g.cfg.Tags && rapid.IntRange(0, 9).Draw(t, "zeroer") == 0 {
+			// IsZeroer types (value and pointer receiver, by value and by
+			// pointer) are what omitempty consults: make them common
+			zt := TypeDesc{Kind: "pool", Pool: rapid.SampledFrom([]string{"ZeroVal", "ZeroPtr"}).Draw(t, "zeroert")}
+			if rapid.IntRange(0, 3).Draw(t, "zeroerp") == 0 {
+				zt = TypeDesc{Kind: "ptr", Elem: &TypeDesc{Kind: "pool", Pool: zt.Pool}}
+			}
+			f.Type = zt
+			if rapid.IntRange(0, 3).Draw(t, "zeroertag") > 0 {
+				f.Tag = `struct:"` + rapid.SampledFrom([]string{",omitempty", "z,omitempty"}).Draw(t, "zeroertagv") + `"`
+			}
+		}
 		td.Fields = append(td.Fields, f)
 	}
 	return td
